@@ -19,6 +19,18 @@ echo "$out" | grep -E "^(VIOLATION|KNOWN-FINDING|HARNESS-ERROR|  class=|C[0-9]+ 
 if ! echo "$out" | grep -q "cogent3 under test: $wt/src/cogent3"; then
   echo "HARNESS-ERROR the check did not import cogent3 from the scratch worktree"; echo "$out" | tail -5; exit 2
 fi
+if [ -n "${KEEP_REPLAY:-}" ] && [ $rc -eq 1 ]; then
+  # keep the first minimised replay as the change's demonstration, and check that
+  # it fails on the changed tree and passes on the unchanged one
+  first=$(echo "$out" | grep -m1 "^VIOLATION" | sed 's/.*replay=//')
+  if [ -f "$first" ]; then
+    cp "$first" "$KEEP_REPLAY/replay.json"
+    VERIF_REPO="$wt" /verif/check "$prop" --replay "$KEEP_REPLAY/replay.json" --quiet >/dev/null 2>&1; r_changed=$?
+    /verif/check "$prop" --replay "$KEEP_REPLAY/replay.json" --quiet >/dev/null 2>&1; r_orig=$?
+    echo "{\"replay_exit_with_change\": $r_changed, \"replay_exit_on_unchanged_tree\": $r_orig, \"cmd\": \"/verif/check $prop --replay replay.json\"}" > "$KEEP_REPLAY/replay_confirmed.json"
+    echo "REPLAY with_change=$r_changed unchanged=$r_orig"
+  fi
+fi
 case $rc in
   1) echo "DETECTED $spec by $prop"; exit 0 ;;
   0) echo "MISSED $spec by $prop"; exit 1 ;;
